@@ -164,6 +164,24 @@ _INIT_ISONAME = (
     "            suffix = ''.join(('1' if idx in label_pos else '0' for idx in range(self.label_variables[k])))\n"
     "            variables[f'{k}__{suffix}' if suffix else k] = v"
 )
+# build_model of the isotopomer mapper: how the reaction loop consults the mapper's own `label_maps` dict, replaced by <MAPS>
+# in the pinned shape.  _MAPS_READ = the tree (the dict is only read); _MAPS_POPPED_* = the recognised regression shape
+# seeded as C05-9 (`open_maps` IS self.label_maps: every build removes the entries of the base model's reactions, the
+# left-overs are logged) -- fact `gen_build_maps`, model coq/label/IsoSession.v
+_MAPS_READ = (
+    "for rxn_name, rxn in self.model.get_raw_reactions().items():\n"
+    "    if (label_map := self.label_maps.get(rxn_name)) is None:\n"
+)
+_MAPS_POPPED_HEAD = (
+    "open_maps = self.label_maps\n"
+    "for rxn_name, rxn in self.model.get_raw_reactions().items():\n"
+    "    if (label_map := open_maps.pop(rxn_name, None)) is None:\n"
+)
+_MAPS_POPPED_TAIL = (
+    "if open_maps:\n"
+    "    _LOGGER.warning('Label map(s) given for unknown reaction(s): %s', ', '.join(open_maps))\n"
+    "return m"
+)
 # the rate-argument renaming block of _create_isotopomer_reactions (inside the pattern loop), both recognised forms
 _REPL_DICT = (
     "    replacements = dict(zip(base_substrates, new_substrates, strict=True)) | dict(zip(base_products, new_products, strict=True))\n"
@@ -209,7 +227,11 @@ def helper_hashes() -> dict[str, dict[str, str]]:
     lin = ast.parse((common.REPO / "src/mxlpy/linear_label_map.py").read_text())
     out = {"iso": {k: _h(_body_src(_fn(iso, k))) for k in ISO_HELPER_SHAPES if k != "build_model"}, "lin": {k: _h(_body_src(_fn(lin, k))) for k in LIN_HELPER_SHAPES}}
     ibm = _body_src(_fn(iso, "build_model"))
-    out["iso"]["build_model<INIT>"] = _h(ibm.replace(_INIT_RAW, "<INIT>").replace(_INIT_ISONAME, "<INIT>"))
+    if ibm.endswith(_MAPS_POPPED_TAIL):
+        ibm = ibm[: -len(_MAPS_POPPED_TAIL)] + "return m"
+    out["iso"]["build_model<INIT><MAPS>"] = _h(
+        ibm.replace(_INIT_RAW, "<INIT>").replace(_INIT_ISONAME, "<INIT>").replace(_MAPS_POPPED_HEAD, "<MAPS>\n").replace(_MAPS_READ, "<MAPS>\n")
+    )
     cre = _body_src(_fn(iso, "_create_isotopomer_reactions"))
     out["iso"]["_create_isotopomer_reactions<REPL>"] = _h(cre.replace(_REPL_DICT, "<REPL>").replace(_REPL_POSITIONAL, "<REPL>"))
     bm = _body_src(_fn(lin, "build_model"))
@@ -229,7 +251,7 @@ PINNED = {
         "_assign_compound_labels": "9a22779e13145c3f",
         "_total_concentration": "5f12d60713e71e1a",
         "get_isotopomers": "35a1af943c3606b5",
-        "build_model<INIT>": "b1bb8b8cce8ac281",
+        "build_model<INIT><MAPS>": "7e9205d4d70337a7",
         "_create_isotopomer_reactions<REPL>": "6ce78f939f0c319f",
     },
     "lin": {
@@ -256,6 +278,7 @@ def extract_facts() -> dict[str, str]:
         "lin_helpers": "false",
         "init_name": "InitUnknown",
         "lin_expand": "ExpUnknown",
+        "build_maps": "MapsUnknown",
     }
     try:
         iso = ast.parse((common.REPO / "src/mxlpy/label_map.py").read_text())
@@ -298,6 +321,12 @@ def extract_facts() -> dict[str, str]:
         facts["init_name"] = "InitRawSuffix"
     elif ibm.count(_INIT_ISONAME) == 1 and _INIT_RAW not in ibm:
         facts["init_name"] = "InitIsoName"
+    # how build_model's reaction loop consults the mapper's label_maps (nothing else in the body mentions the dict)
+    if ibm.count(_MAPS_READ) == 1 and ibm.count("label_maps") == 1 and "open_maps" not in ibm and ".pop(" not in ibm:
+        facts["build_maps"] = "MapsRead"
+    elif (ibm.count(_MAPS_POPPED_HEAD) == 1 and ibm.endswith(_MAPS_POPPED_TAIL) and ibm.count(_MAPS_POPPED_TAIL) == 1
+          and ibm.count("open_maps") == 4 and ibm.count("label_maps") == 1 and ibm.count(".pop(") == 1):
+        facts["build_maps"] = "MapsPopped"
     # reading direction of the linear mapper: the statement in build_model AND (if used) the helper
     bm = _body_src(_fn(lin, "build_model"))
     helper = _body_src(_fn(lin, "_map_substrates_to_labelmap"))
@@ -320,8 +349,10 @@ def gen() -> dict[str, str]:
         "(* REGENERATED from src/mxlpy/label_map.py and src/mxlpy/linear_label_map.py by harness/c05_label.py;\n"
         "   do not edit.  An unrecognised shape yields an *Unknown constructor / None / false, which breaks\n"
         "   C05_facts_pinned or C16_facts_pinned. *)\n"
-        "From Label Require Import LModel Iso Linear.\n"
+        "From Label Require Import LModel Iso IsoSession Linear.\n"
         f"Definition gen_label_facts : label_facts :=\n  mkLabelFacts {f['iso_dir']} {f['ext_bit']} {f['short']} {f['repl']} {f['iso_helpers']} {f['lin_dir']} {f['lin_helpers']} {f['init_name']} {f['lin_expand']}.\n"
+        "(* how LabelMapper.build_model's reaction loop consults the mapper's own label_maps dict (IsoSession.v); pinned by C05_build_maps_pinned *)\n"
+        f"Definition gen_build_maps : maps_mode := {f['build_maps']}.\n"
     )
     common.write_if_changed(common.area_dir(AREA) / "GenLabelFacts.v", text)
     return f
@@ -670,6 +701,59 @@ def run_iso(base: dict, lv: dict, maps: dict, init: dict | None):
 
     out = guarded(go)
     return out, holder.get("m")
+
+
+def poke_model(m) -> None:
+    """What a caller may do to a model it was handed: edit its containers in place (raw accessors hand out the live objects)."""
+    for r in m.get_raw_reactions(as_copy=False).values():
+        r.args.append("poked")
+        r.stoichiometry.clear()
+    for d in m.get_raw_derived(as_copy=False).values():
+        d.args.reverse()
+        d.args.append("poked")
+
+
+def run_iso_session(base: dict, lv: dict, maps: dict, inits: list, *, poke: bool = False, judge=None, reuse: list | None = None):
+    """ONE LabelMapper, one build_model call per entry of `inits` (None = no initial labels), in order.
+    `reuse[k]` true: the k-th call is handed the very dict OBJECT the previous call was handed (a caller keeping its
+    tracer specification in one variable); its content as the caller wrote it is `inits[k]`.
+
+    -> (outcomes, mapper.label_maps afterwards or None if unreadable, mapper.label_variables afterwards).
+    `judge(k, outcome, model)` is called right after the k-th call (before the returned model is poked: with `poke` the
+    caller edits every returned model's containers in place before the next call -- inputs and results are values)."""
+    from mxlpy import LabelMapper
+
+    mapper = LabelMapper(build_base(base), label_variables=dict(lv), label_maps={k: list(v) for k, v in maps.items()})
+    outs = []
+    arg = None
+    for k, init in enumerate(inits):
+        holder: dict[str, Any] = {}
+        if not (reuse and k > 0 and reuse[k] and arg is not None):
+            arg = None if init is None else {c: (list(v) if isinstance(v, list) else v) for c, v in init.items()}
+
+        def go(arg=arg, holder=holder):
+            m = mapper.build_model(initial_labels=arg)
+            holder["m"] = m
+            return canon_model(m)
+
+        out = guarded(go)
+        outs.append(out)
+        if judge is not None:
+            judge(k, out, holder.get("m"))
+        if poke and holder.get("m") is not None:
+            try:
+                poke_model(holder["m"])
+            except Exception:  # noqa: BLE001
+                pass
+    try:
+        after = {k: [common.exact_int(i) for i in v] for k, v in mapper.label_maps.items()}
+    except Exception:  # noqa: BLE001
+        after = None
+    try:
+        lv_after = dict(mapper.label_variables)
+    except Exception:  # noqa: BLE001
+        lv_after = None
+    return outs, after, lv_after
 
 
 def run_lin(base: dict, lv: dict, maps: dict, init: dict | None, concs: dict, fluxes: dict, ext):
